@@ -55,6 +55,12 @@ def jobs(seed=0):
                  entry="h_s5_b_to_znx128_boundary", no_dfcc=True, defines={"NN": 1},
                  cbmc_flags=["--no-signed-overflow-check", "--unwind", "14", "--unwinding-assertions"], functions=["q120_b_to_znx128_simple"],
                  timeout=600, bound_note="concrete boundary vectors (closed-term evaluation, not a proof)"))
+    for entry, nm in (("h_s4_q120x2_blocks", "q120x2_extract_save"), ("h_s4_q120x2_contiguous", "q120x2_extract_contiguous")):
+        for xn in (2, 8):
+            J.append(Job(name="q120.%s.n%d" % (nm, xn), props=["C10", "C11", "C18"], shape="S4", sources=["q120/q120_arithmetic_ref.c"], harness="q120_simple_s4.c",
+                         entry=entry, no_dfcc=True, defines={"NN": 1, "XN": xn}, cbmc_flags=["--unwind", str(12 * xn + 3), "--unwinding-assertions", "--no-signed-overflow-check"],
+                         functions=["q120x2_extract_1blk_from_q120b_ref", "q120x2b_save_1blk_to_q120b_ref", "q120x2_extract_1blk_from_contiguous_q120b_ref"], timeout=600,
+                         bound_note="dimension nn=%d, every block index, all data (copies of 8 words)" % xn))
     J.append(Job(name="lemma.q120_integer_lemmas", props=["C10", "C04"], shape="S6", sources=[], harness="", entry="", kind="native",
                  native_cmd=["python3", "lemmas/q120_lemmas.py"], functions=[], timeout=900,
                  bound_note="z3 (z3-new 5.1 if present), linear integer arithmetic, constants read from the real q120_common.h"))
